@@ -18,9 +18,18 @@
  * proper list ending in an empty-list node.
  *
  * Modelling: allocator = static pools + ledger (c20_common.h); recursion of
- * sx_parse_list / sx_parse_ / sx_destroy bounded per function by the spec
- * (unwinding assertions prove the bounds sufficient for LEN).
+ * sx_parse_list / sx_parse_ bounded per function by the spec (recursion
+ * unwinding assertions prove the bound sufficient for LEN); every call of
+ * sx_destroy goes to its contract (c20_common.h), which c20_destroy.c proves
+ * for the real body.
+ *
+ * Reach (measured, cbmc 6.11, cadical): LEN 1: 0.4 M variables, 6 s; LEN 2:
+ * 2.0 M variables, 60 s; LEN 3: 498 k SSA steps, 6.8 M variables, out of
+ * memory at 12 GB. The two recursive call sites of sx_parse_list are
+ * unrolled to the full depth on every path because the text position is
+ * symbolic, so the call tree grows exponentially with LEN.
  */
+#define C20_DESTROY_BY_CONTRACT /* sx_destroy: see c20_common.h and c20_destroy.c */
 #include "c20_common.h"
 
 #ifndef ALPHA_ID
@@ -115,14 +124,17 @@ c20_atom_is(const struct sx_node *x, const char *s, const struct ref_tok *t)
     if (t->kind == R_INT)
         return x->type == SXT_INTEGER && x->data.u64 == t->value;
     if (t->kind == R_SYM) {
-        if (x->type != SXT_SYMBOL || x->data.symbol == NULL)
+        if (x->type != SXT_SYMBOL)
             return false;
+        const char *sym = vp_sym_view(x->data.symbol);
         const size_t len = t->end - t->start;
+        if (sym == NULL || vp_sym_block_size(x->data.symbol) < len + 1)
+            return false;
         bool same = true;
         for (size_t k = 0; k < LEN; ++k)
-            if (k < len && x->data.symbol[k] != s[t->start + k])
+            if (k < len && sym[k] != s[t->start + k])
                 same = false;
-        return same && x->data.symbol[len] == '\0';
+        return same && sym[len] == '\0';
     }
     return false;
 }
@@ -134,7 +146,7 @@ c20_tree_prints_as(const struct sx_node *root, const char *s, const struct ref_e
     unsigned sp = 0;
     unsigned k = 0;       /* next expected token */
     bool rest = false;    /* x is the remainder of an open list */
-    const struct sx_node *x = root;
+    const struct sx_node *x = vp_node_view(root);
 
     for (unsigned step = 0; step < MAXTOK; ++step) { /* one token per step */
         if (x == NULL || k >= e->ntok)
@@ -142,11 +154,11 @@ c20_tree_prints_as(const struct sx_node *root, const char *s, const struct ref_e
         const struct ref_tok *t = &e->tok[k];
         bool done_expr = false;
         if (rest && x->type == SXT_PAIR) {
-            const struct sx_pair *p = x->data.pair;
+            const struct sx_pair *p = vp_pair_view(x->data.pair);
             if (p == NULL || sp >= MAXDEPTH)
                 return false;
             stack[sp++] = p->cdr;
-            x = p->car;
+            x = vp_node_view(p->car);
             rest = false;
             if (x == NULL)
                 return false;
@@ -171,7 +183,7 @@ c20_tree_prints_as(const struct sx_node *root, const char *s, const struct ref_e
         /* an expression is complete */
         if (sp == 0)
             return k == e->ntok;
-        x = stack[--sp];
+        x = vp_node_view(stack[--sp]);
         rest = true;
     }
     return false;
@@ -183,9 +195,9 @@ harness(void)
     VP_INPUT(in);
     for (size_t k = 0; k < LEN; ++k)
         VP_ASSUME(c20_in_alpha(in.s[k]));
+    char *s = vp_exact_text(in.s);
     vp_junk = in.junk;
 
-    char *s = vp_exact_text(in.s);
     const size_t n = LEN;
     const struct ref_expr e = ref_expression(s, n, 0);
 
@@ -193,6 +205,7 @@ harness(void)
 
     VP_ASSERT(!c20_is_error(r.status) || r.node == NULL, "C20.list.error-no-node");
     VP_ASSERT(vp_bad_free == 0, "C20.list.no-bad-free");
+    VP_ASSERT(vp_canaries_ok(), "C20.list.no-write-past-allocation");
 
     if (!e.unspec) {
         if (e.ok) {
@@ -236,12 +249,10 @@ harness(void)
         }
     }
 
-    if (r.node != NULL) {
-        sx_destroy(&r.node);
-        VP_ASSERT(r.node == NULL, "C20.list.destroy-clears-handle");
-    }
-    VP_ASSERT(vp_live == 0, "C20.list.destroy-frees-all");
-    VP_ASSERT(vp_bad_free == 0, "C20.list.destroy-no-bad-free");
+    /* the returned tree owns every allocation that is still live, each once */
+    c20_destroy_contract(&r.node);
+    VP_ASSERT(vp_live == 0, "C20.list.tree-owns-all-live-allocations");
+    VP_ASSERT(vp_bad_free == 0, "C20.list.tree-blocks-distinct-and-live");
     vp_release_text(s);
 }
 
